@@ -13,7 +13,7 @@ St == [tgt |-> <<tgt.k, tgt.s, tgt.r>>,
        toQ |-> [i \in 1..Len(toQ) |-> <<toQ[i].kind, toQ[i].ev, E(toQ[i].meta)>>],
        mf |-> <<mf.ev, mf.taken, mf.resumed, E(mf.meta)>>,
        g |-> <<hb["request"], hb["response"], ap["request"], ap["response"], handled,
-               fixed.browser, fixed.rinj, fixed.preempted, calls, closed>>]
+               fixed.browser, fixed.rinj, fixed.preempted, fixed.recap, calls, closed>>]
 P(act) == PrintT(ToJson([src |-> St, act |-> act, dst |-> St', obs |-> out']))
 MInit == Init /\ PrintT(ToJson([init |-> St, obs |-> out]))
 MNext == \/ \E b, h \in BOOLEAN : InterceptRequest(b, h) /\ P([n |-> "InterceptRequest", browser |-> b, hdr |-> h])
